@@ -323,7 +323,7 @@ func runTable(ctx *core.Ctx, v *verdicts) error {
 				recs = append(recs, rs...)
 			}
 			ctx.Ev.AddReplayed(len(cons))
-			if err := judge(ctx, recs, sus, v, 1500, 3); err != nil {
+			if err := judge(ctx, recs, sus, v, 6000, 3); err != nil {
 				fail(err)
 				return
 			}
@@ -393,7 +393,7 @@ func runRandom(ctx *core.Ctx, v *verdicts) error {
 		}
 		ctx.Ev.Sample(map[string]any{"kind": "record of a seeded large map after Embed/Extract (truncated), judged by Trace_CMap", "record": r})
 	}
-	return judge(ctx, recs, nil, v, 4, 12)
+	return judge(ctx, recs, nil, v, ctx.Pick(10, 20), 10)
 }
 
 // ---------------------------------------------------------------------------
